@@ -306,6 +306,32 @@ fn xml_trim(s: &str, start: bool, end: bool) -> &str {
     t
 }
 
+fn text_via(s: &str, mode: u8) -> BytesText<'static> {
+    use quick_xml::escape::{escape, minimal_escape, partial_escape};
+    match mode % 8 {
+        0 => BytesText::from_escaped(escape(s).into_owned()),
+        1 => BytesText::from_escaped(partial_escape(s).into_owned()),
+        2 => BytesText::from_escaped(minimal_escape(s).into_owned()),
+        3 => {
+            let t = BytesText::new(s);
+            let b = t.borrow().into_owned();
+            b
+        }
+        4 => BytesText::new(s).into_owned(),
+        5 => BytesCData::new(s).escape().map(|t| t.into_owned()).unwrap_or_else(|_| BytesText::new(s).into_owned()),
+        6 => BytesCData::new(s).partial_escape().map(|t| t.into_owned()).unwrap_or_else(|_| BytesText::new(s).into_owned()),
+        _ => BytesCData::new(s).minimal_escape().map(|t| t.into_owned()).unwrap_or_else(|_| BytesText::new(s).into_owned()),
+    }
+}
+
+fn end_of(name: &str, attrs: bool) -> BytesEnd<'static> {
+    let mut st = BytesStart::new(name);
+    if attrs {
+        st.push_attribute(("k", "v"));
+    }
+    st.to_end().into_owned()
+}
+
 fn trimmed_text(s: &str, start: bool, end: bool, owned: bool) -> BytesText<'_> {
     let mut t = BytesText::new(s);
     if owned {
@@ -333,6 +359,8 @@ fn expected(builds: &[Build]) -> Vec<Expect> {
                 push(if *empty { Event::Empty(e) } else { Event::Start(e) }, None, Some(attrs));
             }
             Build::End(n) => push(Event::End(BytesEnd::new(n.clone())), None, None),
+            Build::EndOf { name, .. } => push(Event::End(BytesEnd::new(name.clone())), None, None),
+            Build::TextVia { s, mode } => push(Event::Text(text_via(s, *mode)), Some(s.clone()), None),
             Build::Text(s) => push(Event::Text(BytesText::new(s).into_owned()), Some(s.clone()), None),
             Build::TextTrim { s, start, end, .. } => {
                 let t = xml_trim(s, *start, *end);
@@ -406,6 +434,8 @@ fn emit_sync(builds: &[Build], w: &mut Writer<Vec<u8>>) -> io::Result<()> {
                 w.write_event(if *empty { Event::Empty(e) } else { Event::Start(e) })?;
             }
             Build::End(n) => w.write_event(Event::End(BytesEnd::new(n.as_str())))?,
+            Build::EndOf { name, attrs } => w.write_event(Event::End(end_of(name, *attrs)))?,
+            Build::TextVia { s, mode } => w.write_event(Event::Text(text_via(s, *mode)))?,
             Build::Text(s) => w.write_event(Event::Text(BytesText::new(s)))?,
             Build::TextTrim { s, start, end, owned } => w.write_event(Event::Text(trimmed_text(s, *start, *end, *owned)))?,
             Build::CDataEscaped(s) => {
@@ -466,6 +496,8 @@ async fn emit_async(builds: &[Build], w: &mut Writer<PipeWriter>) -> quick_xml::
                 w.write_event_async(if *empty { Event::Empty(e) } else { Event::Start(e) }).await?;
             }
             Build::End(n) => w.write_event_async(Event::End(BytesEnd::new(n.as_str()))).await?,
+            Build::EndOf { name, attrs } => w.write_event_async(Event::End(end_of(name, *attrs))).await?,
+            Build::TextVia { s, mode } => w.write_event_async(Event::Text(text_via(s, *mode))).await?,
             Build::Text(s) => w.write_event_async(Event::Text(BytesText::new(s))).await?,
             Build::TextTrim { s, start, end, owned } => w.write_event_async(Event::Text(trimmed_text(s, *start, *end, *owned))).await?,
             Build::CDataEscaped(s) => {
@@ -627,9 +659,20 @@ fn gen_build(rng: &mut Rng, open: &mut Vec<String>) -> Build {
         }
         4 | 5 => {
             let n = if rng.chance(4, 5) { open.pop() } else { None };
-            Build::End(n.unwrap_or_else(|| rng.pick(P_NAMES).to_string()))
+            let n = n.unwrap_or_else(|| rng.pick(P_NAMES).to_string());
+            if rng.chance(1, 4) {
+                Build::EndOf { name: n, attrs: rng.bool() }
+            } else {
+                Build::End(n)
+            }
         }
-        6 => Build::Text(pstr(rng)),
+        6 => {
+            if rng.chance(1, 2) {
+                Build::Text(pstr(rng))
+            } else {
+                Build::TextVia { s: pstr(rng), mode: rng.below(8) as u8 }
+            }
+        }
         7 => {
             if rng.chance(1, 2) {
                 Build::Text(pstr(rng))
